@@ -122,6 +122,14 @@ func (p owParam) invalidValue(r *vh.Rng) float64 {
 			cands = append(cands, p.Hi)
 		}
 	}
+	// parameters that are divided when they are stored: a value that is out of range as written but
+	// would be in range after the division (VELOC/200, concentrations/100)
+	switch p.Name {
+	case "VELOC":
+		cands = append(cands, vh.RoundTo(r.Uni(1.001, 200), 3), vh.RoundTo(r.Uni(1.001, 200), 3))
+	case "INITCONCNBIOM", "INITCONCNROOT":
+		cands = append(cands, vh.RoundTo(r.Uni(100.001, 10000), 3), vh.RoundTo(r.Uni(100.001, 10000), 3))
+	}
 	return cands[r.Intn(len(cands))]
 }
 
@@ -163,9 +171,11 @@ func entriesLine(es []owEntry) string {
 }
 
 func checkC18(c *vh.Ctx) {
-	c.Res.Rule = "state level: every shipped classic crop file x every overridable parameter (7 base, 10 per-stage x every stage, 2 per-organ x every stage x every organ) x valid values (incl. closed bounds) and out-of-range values (incl. excluded bounds), alone and mixed with valid entries: read+override vs read of the edited file, complete state dumps; model correspondence on the same cases; paired whole runs per annual crop x parameter (quick: sample, thorough: every kind x stage x organ): override on the batch line vs edited private copy of the crop file, out-of-range override vs no override, byte comparison of V/Y/C/M; non-trivial = distinct (file, parameter, stage, organ, value class)"
+	c.Res.Rule = "state level: every shipped classic crop file x every overridable parameter (7 base, 10 per-stage x every stage, 2 per-organ x every stage x every organ) x valid values (incl. closed bounds) and out-of-range values (incl. excluded bounds), alone and mixed with valid entries: read+override vs read of the edited file, complete state dumps; model correspondence on the same cases; paired whole runs per annual crop x parameter (quick: sample, thorough: every kind x stage x organ): override on the batch line vs edited private copy of the crop file, out-of-range override vs no override, byte comparison of V/Y/C/M; file match: rotations of crops whose parameter file names are prefixes / extensions of one another (WR+WRA+WRC, SOY + variety files, classic and .yml) and permanent crops regrown in consecutive entries, override for exactly one file vs edited copy of exactly that file, names matching no file vs no override; out-of-range values that would be in range after the read-time division (VELOC/200, concentrations/100); session sequences: lines without / with different overrides in one session vs their solo runs; non-trivial = distinct (file, parameter, stage, organ, value class)"
 	c18State(c)
 	c18Runs(c)
+	c18FileMatch(c)
+	c18Session(c)
 }
 
 func c18State(c *vh.Ctx) {
